@@ -361,10 +361,32 @@ func init() {
 				Step: c09Step, SeedStep: true,
 				Required: []string{"endblock.sub_interval", "asset.charged"},
 			}
-			if tier == "thorough" {
-				return []*engine.Scenario{mk("c14-lifecycle", []int{2, 0, 2, 4, 2}, 9), jail, restart, wtr}
+			// change intervals that are not whole seconds (100 ms, 300 ms: not representable in binary floating point) and block
+			// steps that are exact multiples of them: the interval count is an exact integer division of durations
+			scfg := world.DefaultConfig()
+			scfg.Assets = []world.AssetCfg{
+				{Denom: "aaa", Weight: "1", Min: "0", Max: "5", TakeRate: "0", ChangeRate: "0.5", ChangeInterval: 100 * time.Millisecond},
+				{Denom: "bbb", Weight: "2", Min: "0", Max: "5", TakeRate: "0", ChangeRate: "0.9", ChangeInterval: 300 * time.Millisecond},
 			}
-			return []*engine.Scenario{jail, restart, wtr, mk("c14-lifecycle", []int{2, 0, 1, 3, 1}, 5)}
+			subsec := &engine.Scenario{
+				Property: "C14", Name: "c14-sub-second-interval", Cfg: scfg, Stores: world.ModuleStores,
+				Seeds:      [][]world.Op{{opDel(0, 0, "aaa", "1000000"), opDel(1, 0, "bbb", "1000000"), world.Op{K: world.KBlock, Dt: int64(100 * time.Millisecond), Class: ClsBlock}}},
+				ClassNames: classNames, Budgets: tierPick(tier, []int{0, 0, 0, 4, 0}, []int{0, 0, 0, 6, 0}), MaxDepth: tierPick(tier, 4, 6),
+				NewRef: func(w *world.World, root *engine.Node) engine.Ref { return newRewRef() },
+				Ops: func(n *engine.Node) []world.Op {
+					var ops []world.Op
+					for _, ms := range []int{100, 300, 700, 900, 1250} {
+						ops = append(ops, world.Op{K: world.KBlock, Dt: int64(time.Duration(ms) * time.Millisecond), Class: ClsBlock})
+					}
+					return ops
+				},
+				Step: c14Step, SeedStep: true,
+				Required: []string{"decay.single_interval", "decay.multi_interval", "decay.sub_interval"},
+			}
+			if tier == "thorough" {
+				return []*engine.Scenario{subsec, mk("c14-lifecycle", []int{2, 0, 2, 4, 2}, 9), jail, restart, wtr}
+			}
+			return []*engine.Scenario{subsec, jail, restart, wtr, mk("c14-lifecycle", []int{2, 0, 1, 3, 1}, 5)}
 		},
 		Assumptions: []string{
 			"assets: aaa decays x0.5 every 1u in (0,5); bbb decays x0.9 every 2u in (1.5,2); ccc warms up until +4u on range (1,1); governance changes weight, rate (0.5/1/1.5), interval (0/1u/2u) and range; block steps 1u/2u/3u/7u",
